@@ -286,12 +286,51 @@ def specStep (q : List Byte) (ok : Bool) : Op → List Byte × Res
     if ok then (q.drop k.toNat, .ok (q.take n.toNat)) else (q, .fail)
   | .clear => ([], .ok [])
 
-/-- bytes accepted from the writer by one operation -/
+/-- the contract of the API under which the theorems are stated: sizes are not
+    negative; `writer_move_n` advances by at most what `writer_fc` granted;
+    `reader_move` by at most what `reader_fc` exposed -/
+def Op.Valid : Op → Prop
+  | .write _ => True
+  | .read n => 0 ≤ n
+  | .fetch n => 0 ≤ n
+  | .wz data k => 0 ≤ k ∧ k ≤ data.length
+  | .wd _ => True
+  | .rz n k => 0 ≤ n ∧ 0 ≤ k ∧ k ≤ n
+  | .clear => True
+
+instance : DecidablePred Op.Valid := fun op => by
+  cases op <;> simp only [Op.Valid] <;> infer_instance
+
+/-- the specification along a history; the verdicts are taken from `rs` -/
+def specRun (q : List Byte) : List Op → List Res → List Byte × List Res
+  | op :: ops, r :: rs =>
+    let (q1, x) := specStep q r.isOk op
+    let (q2, xs) := specRun q1 ops rs
+    (q2, x :: xs)
+  | _, _ => (q, [])
+
+/-- bytes accepted from the writer by one operation (judged by its result) -/
 def accepted (res : Res) : Op → List Byte
   | .write src => if res.isOk then src else []
   | .wz data k => if res.isOk then data.take k.toNat else []
   | .wd data => if res.isOk then data else []
   | _ => []
+
+/-- bytes the reader obtained AND consumed by one operation (judged by its result):
+    everything `read` copied out; the first `k` of the bytes exposed by the zero-copy
+    pair. `fetch` consumes nothing. -/
+def obtained (res : Res) : Op → List Byte
+  | .read _ => match res with | .ok d => d | _ => []
+  | .rz _ k => match res with | .ok d => d.take k.toNat | _ => []
+  | _ => []
+
+def acceptedAll : List Op → List Res → List Byte
+  | op :: ops, r :: rs => accepted r op ++ acceptedAll ops rs
+  | _, _ => []
+
+def obtainedAll : List Op → List Res → List Byte
+  | op :: ops, r :: rs => obtained r op ++ obtainedAll ops rs
+  | _, _ => []
 
 /-- what the abstraction of a state is: the unread bytes, oldest first -/
 def abs (s : BB) : List Byte :=
@@ -315,6 +354,20 @@ def read (s : BB) (n : Int) : Except Err (BB × Option (List Byte)) :=
       let d ← copySplit s cr (n - cr)
       let s1 := { s with r := n - cr }
       return (refresh s1, some d)
+
+/-- `step` with the pinned tree's `read` -/
+def step (s : BB) : Op → Except Err (BB × Res)
+  | .read n => do
+    let (s', o) ← Orig.read s n
+    return (s', match o with | some d => .ok d | none => .fail)
+  | op => MgModel.C07.step s op
+
+def run (s : BB) : List Op → Except Err (BB × List Res)
+  | [] => .ok (s, [])
+  | op :: ops => do
+    let (s1, x) ← Orig.step s op
+    let (s2, xs) ← Orig.run s1 ops
+    return (s2, x :: xs)
 
 end Orig
 
